@@ -332,6 +332,16 @@ impl<'a> Gen<'a> {
                 s.push_str(&self.rand_word(&ok, 6));
             }
             s
+        } else if self.r.chance(1, 6) {
+            // display widths around the alignment column (48 - 2) and the balance column (50)
+            self.tag("boundary-width-account");
+            let w = 36 + self.r.below(18) as usize;
+            let mut s = String::from("Assets:");
+            let wide = self.r.chance(1, 4);
+            while unicode_width::UnicodeWidthStr::width_cjk(s.as_str()) + if wide { 2 } else { 1 } <= w {
+                s.push(if wide && s.len() % 5 == 0 { '銀' } else { 'w' });
+            }
+            s
         } else {
             self.pick(&ACCOUNTS).to_string()
         }
@@ -509,7 +519,14 @@ impl<'a> Gen<'a> {
         if self.r.chance(1, 5) {
             self.tag("effective-date");
             h.push('=');
-            h.push_str(&self.date());
+            if self.r.chance(1, 3) {
+                // an effective date equal to the date is still an effective date
+                self.tag("effective-date-equal");
+                let same = h[..h.len() - 1].to_string();
+                h.push_str(&same);
+            } else {
+                h.push_str(&self.date());
+            }
         }
         let mut has_note = false;
         if self.r.chance(9, 10) {
